@@ -214,13 +214,27 @@ def _is(t, kind):
     return z3.is_app(t) and t.decl().kind() == kind
 
 
+def _unit_elem(t):
+    """the element e if t is the one-element sequence [e] (a unit, or a conditional between units)"""
+    if _is(t, z3.Z3_OP_SEQ_UNIT):
+        return t.arg(0)
+    if _is(t, z3.Z3_OP_ITE):
+        a, b = _unit_elem(t.arg(1)), _unit_elem(t.arg(2))
+        if a is not None and b is not None:
+            return z3.If(t.arg(0), a, b)
+    return None
+
+
 def _split_last(t):
     """(init, last element) if t has the shape init ++ [y]"""
-    if _is(t, z3.Z3_OP_SEQ_UNIT):
-        return z3.Empty(t.sort()), t.arg(0)
-    if _is(t, z3.Z3_OP_SEQ_CONCAT) and t.num_args() >= 2 and _is(t.arg(t.num_args() - 1), z3.Z3_OP_SEQ_UNIT):
-        init = t.arg(0) if t.num_args() == 2 else z3.Concat(*[t.arg(i) for i in range(t.num_args() - 1)])
-        return init, t.arg(t.num_args() - 1).arg(0)
+    e = _unit_elem(t)
+    if e is not None:
+        return z3.Empty(t.sort()), e
+    if _is(t, z3.Z3_OP_SEQ_CONCAT) and t.num_args() >= 2:
+        e = _unit_elem(t.arg(t.num_args() - 1))
+        if e is not None:
+            init = t.arg(0) if t.num_args() == 2 else z3.Concat(*[t.arg(i) for i in range(t.num_args() - 1)])
+            return init, e
     return None
 
 
@@ -241,6 +255,12 @@ def lensum_facts(ex, t, depth=0):
     ex.add_def(LENSUM(t) >= 0)
     if _is(t, z3.Z3_OP_SEQ_EMPTY):
         ex.add_def(LENSUM(t) == 0)
+        return
+    if _is(t, z3.Z3_OP_ITE) and _unit_elem(t) is None:
+        # a conditional between two lists (the simplifier hoists a conditional element out of xs ++ [c ? a : b])
+        if depth < 3:
+            lensum_facts(ex, t.arg(1), depth + 1)
+            lensum_facts(ex, t.arg(2), depth + 1)
         return
     sp = _split_last(t)
     if sp is not None:
